@@ -21,11 +21,13 @@ RULE = ("schemas with random deprecated subsets of object and interface fields (
         "response field is matched to its schema field through its wire key (field and alias names are globally unique in these "
         "schemas): allow -> no attribute; warn / unset -> #[deprecated] iff the schema field is deprecated, note == reason "
         "verbatim iff a reason exists; deny -> emitted key multiset == selected keys minus the deprecated ones. Under deny, cases "
-        "are also compiled and fed conforming payloads that still contain the deprecated keys. Non-trivial = case whose document "
-        "selects >= 1 deprecated field; distinct by (schema, document, strategy)")
+        "are also compiled (every third one in derive form: the strategy comes from the attribute, items in varying order) and fed conforming payloads that still contain the deprecated keys. Non-trivial = case whose document "
+        "selects >= 1 deprecated field; distinct by (schema, document, strategy). In every second schema an implementing object's "
+        "copy of an interface field differs from the interface's declaration in deprecation (deprecated on one side only, or with "
+        "another reason): each selection follows the declaration in whose scope it stands")
 
 STRATEGIES = [("allow", "allow"), ("warn", "warn"), ("deny", "deny"), ("unset", None)]
-FLOOR = {"fields-checked": 3000, "deprecated-fields-checked": 300, "with-reason": 100, "without-reason": 20, "deny-omitted": 80, "deny-payloads": 100}
+FLOOR = {"fields-checked": 3000, "deprecated-fields-checked": 300, "with-reason": 100, "without-reason": 20, "deny-omitted": 80, "deny-payloads": 100, "declaration-specific-deprecation": 10, "deny-derive-delivery": 5}
 
 
 def field_items(doc, op):
@@ -45,6 +47,35 @@ def field_items(doc, op):
     for fn in sorted(reachable_fragments([op], frags)):
         rec(frags[fn]["sel"])
     return out
+
+
+def scoped_field_items(schema, doc, op):
+    """[(field item, type whose selection set holds it)] for an operation's module: the operation's own selection and
+    each reachable fragment once. Deprecation belongs to a declaration: the same field name may be deprecated on an
+    interface and not on an implementing object (or the other way round)."""
+    from ..model import base, root_type
+    frags = frag_map(doc)
+    out = []
+
+    def rec(items, scope):
+        for it in items:
+            if it[0] == "field":
+                out.append((it, scope))
+                if it[4]:
+                    f = schema.field(scope, it[2])
+                    if f is not None:
+                        rec(it[4], base(f["type"]))
+            elif it[0] == "inline":
+                rec(it[2], it[1])
+    rec(op["sel"], root_type(schema, op))
+    for fn in sorted(reachable_fragments([op], frags)):
+        rec(frags[fn]["sel"], frags[fn]["on"])
+    return out
+
+
+def deprecation_at(schema, scope, fname):
+    f = schema.field(scope, fname)
+    return f.get("deprecated") if f else None
 
 
 def deprecation_of(schema, fname):
@@ -67,7 +98,7 @@ def main(run):
     reqs, meta = [], {}
     deny_cases = []
     for si in range(n_schemas):
-        schema = gen_schema(rng, deprecations=0.4, odd_type_names=(si % 4 == 0))
+        schema = gen_schema(rng, deprecations=0.4, odd_type_names=(si % 4 == 0), own_deprecation=0.5 if si % 2 else 0.0)
         fmt, text, ext = render_schema(schema, rng)
         sp = os.path.join(work, "s%d.%s" % (si, ext))
         open(sp, "w").write(text)
@@ -84,7 +115,11 @@ def main(run):
                 reqs.append({"id": rid, "schema_path": sp, "query_text": dtext, "options": opts, "want": ["inspect"]})
                 meta[rid] = {"schema": schema, "doc": doc, "strategy": sname, "doc_text": dtext, "schema_text": text, "schema_ext": ext, "fmt": fmt, "options": opts}
             if len(deny_cases) < run.size(30, 300) and rng.random() < 0.5:
-                c = C.make_case("d%d_%d" % (si, di), schema, doc, rng, options={"deprecation": "deny", "other_variant": rng.random() < 0.3}, fmt=fmt, features=feats)
+                c = C.make_case("d%d_%d" % (si, di), schema, doc, rng, options={"deprecation": "deny", "other_variant": rng.random() < 0.3, "skip_none": rng.random() < 0.5}, fmt=fmt, features=feats)
+                if len(deny_cases) % 3 == 2:
+                    c["attr_focus"] = "deprecated"
+                    c["delivery"] = "derive"      # the strategy arrives through the derive attribute (items in a per-case order)
+                    run.count("deny-derive-delivery")
                 vecs, stats = C.resp_vectors(c, rng, n_payloads=6, drop_deprecated=True)
                 c["vectors"] = vecs
                 c["payload_stats"] = stats
@@ -108,19 +143,24 @@ def main(run):
         problems = []
         for mod, opname in mods.items():
             op = next(o for o in doc["operations"] if o["name"] == opname)
-            fis = field_items(doc, op)
+            fis = scoped_field_items(schema, doc, op)
             key_field = {}
-            for it in fis:
+            key_deps = {}
+            for it, scope in fis:
                 key_field[it[1] or it[2]] = it[2]
             expected = Counter()
-            for it in fis:
-                dep = deprecation_of(schema, it[2])
+            for it, scope in fis:
+                dep = deprecation_at(schema, scope, it[2])
+                key_deps.setdefault(it[1] or it[2], []).append(dep)
                 if dep is not None:
                     any_dep = True
                 if strat == "deny" and dep is not None:
                     run.count("deny-omitted")
                     continue
                 expected[it[1] or it[2]] += 1
+            # a key selected both in an interface's scope and in an implementing object's, with different deprecation on the
+            # two declarations: which emitted field is which cannot be told from the key alone (the multiset still is exact)
+            ambiguous = {k for k, ds in key_deps.items() if any(d != ds[0] for d in ds)}
             emitted = Counter()
             for it in items:
                 if it["kind"] != "struct" or it["path"] != [mod] or it["name"] == "Variables":
@@ -137,7 +177,12 @@ def main(run):
                     if key not in key_field:
                         problems.append("emitted field with key %s that the document does not select (struct %s)" % (key, it["name"]))
                         continue
-                    dep = deprecation_of(schema, key_field[key])
+                    if key in ambiguous:
+                        run.count("ambiguous-key-skipped")
+                        continue
+                    dep = key_deps[key][0]
+                    if dep != deprecation_of(schema, key_field[key]):
+                        run.count("declaration-specific-deprecation")
                     attr = f.get("deprecated")
                     if dep is not None:
                         run.count("deprecated-fields-checked")
